@@ -99,6 +99,11 @@ class Desugar(ast.NodeTransformer):
         for s in module_tree.body:
             if isinstance(s, ast.FunctionDef) and not s.decorator_list and self._inlinable_generator(s):
                 self.generators[s.name] = s
+        self.dict_helpers: Dict[str, ast.FunctionDef] = {}
+        for s in module_tree.body:
+            if isinstance(s, ast.FunctionDef) and self._dict_helper(s) and \
+                    sum(1 for x in module_tree.body if isinstance(x, (ast.FunctionDef, ast.ClassDef)) and x.name == s.name) == 1:
+                self.dict_helpers[s.name] = s
         self.context_managers: Dict[str, ast.Try] = {}
         for s in module_tree.body:
             if isinstance(s, ast.FunctionDef):
@@ -385,6 +390,23 @@ class Desugar(ast.NodeTransformer):
             ast.fix_missing_locations(new)
             r = self.visit(new)
             return r if isinstance(r, list) else [r]
+        if self.func_stack and len(node.targets) == 1 and isinstance(node.targets[0], ast.Tuple) and isinstance(v, ast.Call) and isinstance(v.func, ast.Attribute) \
+                and v.func.attr == "group" and _simple(v.func.value) and not v.keywords and len(v.args) == len(node.targets[0].elts) >= 2 \
+                and all(isinstance(a, ast.Constant) and isinstance(a.value, (str, int)) for a in v.args) and all(isinstance(t_, ast.Name) for t_ in node.targets[0].elts) \
+                and not any(isinstance(x, ast.Name) and x.id in {t_.id for t_ in node.targets[0].elts} for x in ast.walk(v.func.value)):
+            # a, b = m.group("x", "y")  ->  a = m.group("x"); b = m.group("y")
+            out = []
+            for t_, a in zip(node.targets[0].elts, v.args):
+                one = ast.Assign(targets=[t_], value=ast.Call(func=copy.deepcopy(v.func), args=[a], keywords=[]))
+                ast.copy_location(one, node)
+                ast.fix_missing_locations(one)
+                out.append(one)
+            self.count["group-split"] = self.count.get("group-split", 0) + 1
+            return out
+        pre = self._splat_helper(node, v) if self.func_stack else None
+        if pre is not None:
+            r = self.visit(node)
+            return pre + (r if isinstance(r, list) else [r])
         if len(node.targets) == 1 and isinstance(node.targets[0], ast.Tuple) and isinstance(node.value, ast.Tuple) and self.func_stack and \
                 len(node.targets[0].elts) == len(node.value.elts) and all(isinstance(t_, ast.Name) for t_ in node.targets[0].elts) and \
                 not any(isinstance(x, ast.Starred) for x in node.value.elts):
@@ -443,8 +465,83 @@ class Desugar(ast.NodeTransformer):
                 return pre
         return None
 
+    def _splat_helper(self, at: ast.stmt, call: ast.expr) -> Optional[List[ast.stmt]]:
+        """`C(a=1, **helper(x))` with helper a module-level function whose body is plain assignments and one
+        `return {"k": e, ...}`: the helper's assignments (locals renamed) in front of the statement and the dict's entries as
+        explicit keywords"""
+        if not isinstance(call, ast.Call):
+            return None
+        for i, k in enumerate(call.keywords):
+            if k.arg is not None or not (isinstance(k.value, ast.Call) and isinstance(k.value.func, ast.Name) and k.value.func.id in self.dict_helpers):
+                continue
+            hc = k.value
+            fn = self.dict_helpers[hc.func.id]
+            if self._is_local(hc.func.id) or hc.keywords or len(hc.args) != len(fn.args.args) or not all(_simple(a) for a in hc.args):
+                continue
+            body = [b for b in fn.body if not (isinstance(b, ast.Expr) and isinstance(b.value, ast.Constant))]
+            self.tmp += 1
+            tag = self.tmp
+            params = [a.arg for a in fn.args.args]
+            stores = {x.id for b in body for x in ast.walk(b) if isinstance(x, ast.Name) and isinstance(x.ctx, ast.Store)}
+            if stores & set(params):
+                continue
+            mapping = dict(zip(params, hc.args))
+
+            class R(ast.NodeTransformer):
+                def visit_Name(self, n: ast.Name):
+                    if n.id in stores:
+                        return ast.copy_location(ast.Name(id=f"{n.id}__h{tag}", ctx=n.ctx), n)
+                    if isinstance(n.ctx, ast.Load) and n.id in mapping:
+                        return ast.copy_location(copy.deepcopy(mapping[n.id]), n)
+                    return n
+            new = [R().visit(copy.deepcopy(b)) for b in body]
+            ret = new[-1]
+            pre = new[:-1]
+            for b in pre:
+                ast.copy_location(b, at)
+                for x in ast.walk(b):
+                    if isinstance(x, (ast.expr, ast.stmt)):
+                        ast.copy_location(x, at)
+            kws = [ast.keyword(arg=kk.value, value=vv) for kk, vv in zip(ret.value.keys, ret.value.values)]
+            for kw_ in kws:
+                ast.copy_location(kw_, k)
+                for x in ast.walk(kw_.value):
+                    if isinstance(x, ast.expr):
+                        ast.copy_location(x, k)
+            call.keywords[i:i + 1] = kws
+            ast.fix_missing_locations(call)
+            self.count["splat-helper"] = self.count.get("splat-helper", 0) + 1
+            out: List[ast.stmt] = []
+            for b in pre:
+                r = self.visit(b)
+                out.extend(r if isinstance(r, list) else [r])
+            return out
+        return None
+
+    @staticmethod
+    def _dict_helper(fn: ast.FunctionDef) -> bool:
+        a = fn.args
+        if fn.decorator_list or a.vararg or a.kwarg or a.kwonlyargs or a.posonlyargs or a.defaults:
+            return False
+        body = [b for b in fn.body if not (isinstance(b, ast.Expr) and isinstance(b.value, ast.Constant))]
+        if not body or not isinstance(body[-1], ast.Return) or not isinstance(body[-1].value, ast.Dict):
+            return False
+        d = body[-1].value
+        if not d.keys or not all(isinstance(k, ast.Constant) and isinstance(k.value, str) and k.value.isidentifier() for k in d.keys):
+            return False
+        for b in body[:-1]:
+            if not (isinstance(b, ast.Assign) and all(isinstance(t_, (ast.Name, ast.Tuple)) for t_ in b.targets)):
+                return False
+            if any(isinstance(x, (ast.Yield, ast.YieldFrom, ast.Await, ast.Lambda, ast.NamedExpr)) for x in ast.walk(b)):
+                return False
+        return True
+
     def visit_Return(self, node: ast.Return):
         if node.value is not None and self.func_stack:
+            pre0 = self._splat_helper(node, node.value)
+            if pre0 is not None:
+                r0 = self.visit(node)
+                return pre0 + (r0 if isinstance(r0, list) else [r0])
             pre = self._or_default_argument(node)
             if pre is not None:
                 r1 = self.visit(pre)
